@@ -124,16 +124,20 @@ public:
 
     auto ret = UNSAFE_unverified();
     if (ret != nullptr) {
-      // Size of one pointee. Fundamental and pointer types are sized as they
-      // are laid out in sandbox memory. Structs and arrays are sized with the
-      // application's layout, or with the sandbox's where that is known
-      // (registered structs, arrays of these or of fundamental types) and
-      // larger: count whole elements of the sandbox have to lie inside.
-      // Pointers to void, functions or incomplete types are counted in bytes
+      // Size of one pointee. The pointer that is handed back has the
+      // application's element type and designates objects laid out by the
+      // sandbox's ABI: count whole elements have to lie inside under both
+      // layouts, so every pointee is sized with the larger of the two (the
+      // sandbox's is known for fundamental and pointer types, registered
+      // structs, and arrays of these). Pointers to void, functions or
+      // incomplete types are counted in bytes
       size_t el_size = 1;
       using T_El = std::remove_cv_t<T_Pointed>;
       if constexpr (detail::is_basic_type_v<T_El> && !std::is_void_v<T_El>) {
         el_size = sizeof(tainted_volatile<T_El, T_Sbx>);
+        if (sizeof(T_El) > el_size) {
+          el_size = sizeof(T_El);
+        }
       } else if constexpr (detail::is_complete_object_v<T_El>) {
         el_size = sizeof(T_El);
         using T_Base = std::remove_cv_t<std::remove_all_extents_t<T_El>>;
